@@ -101,7 +101,9 @@ func (prop) Run(t *testing.T, s *sim.Sim, res *runner.Result) {
 			if n := len(st.claims); n >= 2 && st.claims[n-1].NS == "other" {
 				acts = append(acts, sim.Action{Key: "user points other/c0 at default/c0's XR", Weight: 2, Run: func() { st.pointAt(st.claims[n-1], st.claims[0]) }})
 			}
-			acts = append(acts, sim.Action{Key: "the name generator repeats names it has handed out before", Weight: 1, Run: func() { kit.RepeatNames(); w.S.Probe("generated-names-repeat") }})
+			{
+				acts = append(acts, sim.Action{Key: "the name generator repeats names it has handed out before", Weight: 1, Run: func() { kit.RepeatNames(); w.S.Probe("generated-names-repeat") }})
+			}
 			for _, k := range w.Store.GCCandidates() {
 				k := k
 				acts = append(acts, sim.Action{Key: "k8s-gc " + k.String(), Weight: 6, Run: func() { w.Store.GCStep(k) }})
